@@ -662,3 +662,232 @@ Qed.
 Theorem precedence : forall c ops h a, steps c h_empty ops = Ok h ->
   pending_rank c h a = max_rank c a (pending c ops).
 Proof. intros c ops h a H. apply pending_rank_max. apply handler_tracks_pending. exact H. Qed.
+
+(* ====================================================================== *)
+(* 4. what trigger_jobs issues                                              *)
+(* ====================================================================== *)
+Lemma max_rank_eq3 : forall c a pend, max_rank c a pend = 3 <->
+  has c pend RfRestartApplication a /\ ~ has c pend RfStopApplication a.
+Proof.
+  intros. pose proof (max_rank_bounds c a pend). rewrite <- max_rank_4. split.
+  - intros E. assert (H3 : 3 <= max_rank c a pend) by lia. apply max_rank_3 in H3.
+    rewrite <- max_rank_4 in H3. split; [destruct H3; [lia|assumption]|lia].
+  - intros [H1 H2]. assert (3 <= max_rank c a pend) by (apply max_rank_3; auto). lia.
+Qed.
+
+Lemma trigger_accepted : forall c busy h pend, Inv c h -> Sim c h pend ->
+  spec_accepts_trigger c busy pend (snd (trigger c busy h)) = true.
+Proof.
+  intros c busy h pend HI [S1 S2 S3 S4]. unfold trigger, spec_accepts_trigger. simpl.
+  rewrite !andb_true_iff.
+  split; [split; [split; [split; [split; [split|]|]|]|]|].
+  - apply nodupb_NoDup, fh_NoDup_zsort, NoDup_filter, (inv_nd_stop _ _ HI).
+  - apply nodupb_NoDup, fh_NoDup_zsort, NoDup_filter, (inv_nd_rapp _ _ HI).
+  - apply nodupb_NoDup, fh_NoDup_zsort, NoDup_filter, (inv_nd_rproc _ _ HI).
+  - apply forallb_forall. intros a Ha. apply negb_true_iff, fh_zmem_false.
+    rewrite fh_zsort_In, filter_In in *. destruct Ha as [Ha _]. intros [Hr _].
+    exact (inv_stop_rapp _ _ HI a Ha Hr).
+  - apply zset_eqb_iff. intros x. rewrite fh_zsort_In, filter_In, S1. unfold exp_stops.
+    rewrite in_map_iff. split.
+    + intros [[p [Hp Ha]] Hb]. exists (RfStopApplication, p). simpl. split; [exact Ha|].
+      apply filter_In. split; [exact Hp|]. simpl. rewrite Ha, Hb. reflexivity.
+    + intros [[s p] [Ha Hf]]. simpl in Ha. apply filter_In in Hf. destruct Hf as [Hp Hf]. simpl in Hf.
+      apply andb_true_iff in Hf. destruct Hf as [Hb Hr]. apply Z.eqb_eq in Hr.
+      assert (s = RfStopApplication) by (apply rank_ge4; lia). subst s. rewrite Ha in Hb.
+      split; [exists p; auto|exact Hb].
+  - apply zset_eqb_iff. intros x. rewrite fh_zsort_In, filter_In, S2. unfold exp_rapps.
+    rewrite in_map_iff. split.
+    + intros [[[p [Hp Ha]] Hn] Hb]. exists (RfRestartApplication, p). simpl. split; [exact Ha|].
+      apply filter_In. split; [exact Hp|]. simpl. rewrite Ha, Hb. simpl.
+      apply Z.eqb_eq. apply max_rank_eq3. split; [exists p; auto|exact Hn].
+    + intros [[s p] [Ha Hf]]. simpl in Ha. apply filter_In in Hf. destruct Hf as [Hp Hf]. simpl in Hf.
+      rewrite Ha in Hf. apply andb_true_iff in Hf. destruct Hf as [Hf Hm]. apply andb_true_iff in Hf.
+      destruct Hf as [Hb Hr]. apply Z.eqb_eq in Hm. apply max_rank_eq3 in Hm. split; [exact Hm|exact Hb].
+  - apply zset_eqb_iff. intros x. rewrite fh_zsort_In, filter_In, S3. unfold exp_rprocs.
+    rewrite in_map_iff. pose proof (max_rank_bounds c (app_of c x) pend) as HB. split.
+    + intros [[Hp Hc] Hb]. exists (RfRestartProcess, x). simpl. split; [reflexivity|].
+      apply filter_In. split; [exact Hp|]. simpl. rewrite Hb. simpl.
+      assert (H2 : 2 <= max_rank c (app_of c x) pend).
+      { apply max_rank_2. right; right. exists x. auto. }
+      assert (N4 : ~ 4 <= max_rank c (app_of c x) pend).
+      { rewrite max_rank_4. intros H. apply Hc. left. exact H. }
+      destruct (Z.eqb (max_rank c (app_of c x) pend) 2) eqn:E2; [reflexivity|]. apply Z.eqb_neq in E2.
+      assert (E3 : max_rank c (app_of c x) pend = 3) by lia. rewrite E3. simpl.
+      apply max_rank_eq3 in E3. destruct (seq_of c x) eqn:Eq; [|reflexivity].
+      exfalso. apply Hc. right. tauto.
+    + intros [[s p] [Hx Hf]]. simpl in Hx. subst p. apply filter_In in Hf. destruct Hf as [Hp Hf]. simpl in Hf.
+      apply andb_true_iff in Hf. destruct Hf as [Hf Hm]. apply andb_true_iff in Hf. destruct Hf as [Hb Hr].
+      apply Z.eqb_eq in Hr. apply negb_true_iff in Hb.
+      assert (s = RfRestartProcess).
+      { destruct s; simpl in Hr; try lia; reflexivity. }
+      subst s. split; [split; [exact Hp|]|rewrite Hb; reflexivity].
+      unfold covered. apply orb_true_iff in Hm. destruct Hm as [Hm|Hm].
+      * apply Z.eqb_eq in Hm. intros [H|[H _]].
+        -- apply max_rank_4 in H. lia.
+        -- assert (3 <= max_rank c (app_of c x) pend) by (apply max_rank_3; auto). lia.
+      * apply andb_true_iff in Hm. destruct Hm as [Hm Hq]. apply Z.eqb_eq in Hm. apply negb_true_iff in Hq.
+        intros [H|[_ H]]; [apply max_rank_4 in H; lia|congruence].
+Qed.
+
+Lemma wf_step_total : forall c h o, wf_op c o = true -> exists h' t, step c h o = Ok (h', t).
+Proof.
+  intros c h o Hw. destruct o as [s p|p st|busy|]; simpl in *.
+  - destruct (lookup c p) as [pi|k] eqn:El; [|discriminate].
+    destruct (add_job_total c s p h pi El) as [h' E]. rewrite E. simpl. eauto.
+  - destruct (lookup c p) as [pi|k] eqn:El; [|discriminate]. unfold add_default.
+    destruct (add_job_total c (strat_of c p) p h pi El) as [h1 E]. rewrite E. simpl.
+    destruct (strat_of c p); try (simpl; eauto).
+    destruct (st && seq_of c p); [|simpl; eauto].
+    destruct (add_job_total c RfRestartApplication p h1 pi El) as [h2 E2]. rewrite E2. simpl. eauto.
+  - eauto.
+  - eauto.
+Qed.
+
+Lemma step_output_shape : forall c h o h' t, step c h o = Ok (h', t) ->
+  match o with Trigger busy => t = Some (snd (trigger c busy h)) | _ => t = None end.
+Proof.
+  intros c h o h' t H. destruct o as [s p|p st|busy|]; simpl in H.
+  - destruct (add_job c s p h); [|discriminate]. simpl in H. inversion H; reflexivity.
+  - destruct (add_default c p st h); [|discriminate]. simpl in H. inversion H; reflexivity.
+  - inversion H; reflexivity.
+  - inversion H; reflexivity.
+Qed.
+
+(* model |= spec, for every sequence of operations *)
+Lemma run_cons : forall c h o r, run c h (o :: r) =
+  match step c h o with
+  | Ok (h', t) => OOk (observe h' t) :: run c h' r
+  | Crash k => [OCrash k]
+  end.
+Proof. reflexivity. Qed.
+
+Lemma spec_violated_cons : forall c pend o r ob robs, spec_violated c pend (o :: r) (ob :: robs) =
+  if wf_op c o then
+    if spec_accepts c pend o ob then spec_violated c (spec_step c pend o) r robs else true
+  else false.
+Proof. reflexivity. Qed.
+
+Lemma refines_spec_gen : forall c ops h pend, Inv c h -> Sim c h pend ->
+  spec_violated c pend ops (run c h ops) = false.
+Proof.
+  intros c ops. induction ops as [|o r IH]; intros h pend HI HS; [reflexivity|].
+  rewrite run_cons. destruct (wf_op c o) eqn:Hw.
+  - destruct (wf_step_total c h o Hw) as [h' [t E]]. rewrite E. rewrite spec_violated_cons, Hw.
+    pose proof (step_output_shape _ _ _ _ _ E) as Ht.
+    assert (Hacc : spec_accepts c pend o (OOk (observe h' t)) = true).
+    { unfold spec_accepts, observe. destruct o as [s p|p st|busy|]; subst t; try reflexivity.
+      apply trigger_accepted; assumption. }
+    rewrite Hacc. apply IH; [exact (Inv_step _ _ _ _ _ HI E)|exact (Sim_step _ _ _ _ _ _ HS E)].
+  - destruct (step c h o) as [[h' t]|k]; rewrite spec_violated_cons, Hw; reflexivity.
+Qed.
+
+Theorem refines_spec : forall c ops, spec_violated c [] ops (run c h_empty ops) = false.
+Proof. intros c ops. apply refines_spec_gen; [apply Inv_empty|apply Sim_empty]. Qed.
+
+(* P0 single_action *)
+Theorem single_action : forall c busy h, Inv c h ->
+  let h' := fst (trigger c busy h) in
+  let '(stops, rapps, rprocs, _) := snd (trigger c busy h) in
+  (* at most one action per application, at most one restart per process *)
+  NoDup stops /\ NoDup rapps /\ NoDup rprocs
+  /\ (forall a, In a stops -> ~ In a rapps /\ forall p, In p rprocs -> app_of c p <> a)
+  (* an application restart is accompanied by a process restart only outside its start sequence *)
+  /\ (forall a p, In a rapps -> In p rprocs -> app_of c p = a -> seq_of c p = false)
+  (* only jobs that were stored are issued, and they are consumed *)
+  /\ (forall a, In a stops -> In a (h_stop h) /\ ~ In a (h_stop h'))
+  /\ (forall a, In a rapps -> In a (h_rapp h) /\ ~ In a (h_rapp h'))
+  /\ (forall p, In p rprocs -> In p (h_rproc h) /\ ~ In p (h_rproc h'))
+  (* deferred while the application has start/stop jobs: nothing is issued and the jobs are kept *)
+  /\ (forall a, zmem a busy = true ->
+        ~ In a stops /\ ~ In a rapps /\ (forall p, In p rprocs -> app_of c p <> a)
+        /\ (In a (h_stop h) -> In a (h_stop h')) /\ (In a (h_rapp h) -> In a (h_rapp h'))
+        /\ (forall p, In p (h_rproc h) -> app_of c p = a -> In p (h_rproc h'))).
+Proof.
+  intros c busy h HI. unfold trigger. simpl.
+  repeat split.
+  - apply fh_NoDup_zsort, NoDup_filter, (inv_nd_stop _ _ HI).
+  - apply fh_NoDup_zsort, NoDup_filter, (inv_nd_rapp _ _ HI).
+  - apply fh_NoDup_zsort, NoDup_filter, (inv_nd_rproc _ _ HI).
+  - rewrite fh_zsort_In, filter_In in *. destruct H as [H _]. intros [Hr _]. exact (inv_stop_rapp _ _ HI a H Hr).
+  - intros p Hp Ha. rewrite fh_zsort_In, filter_In in *. destruct H as [H _]. destruct Hp as [Hp _].
+    destruct (inv_stop_proc _ _ HI a p H Ha) as [H1 _]. contradiction.
+  - intros a p Ha Hp Hap. rewrite fh_zsort_In, filter_In in *. destruct Ha as [Ha _]. destruct Hp as [Hp _].
+    destruct (seq_of c p) eqn:Eq; [|reflexivity].
+    destruct (inv_rapp_proc _ _ HI a p Ha Hap Eq) as [H1 _]. contradiction.
+  - rewrite fh_zsort_In, filter_In in H. tauto.
+  - rewrite fh_zsort_In, filter_In in H. rewrite filter_In. destruct H as [_ H]. apply negb_true_iff in H.
+    intros [_ Hb]. congruence.
+  - rewrite fh_zsort_In, filter_In in H. tauto.
+  - rewrite fh_zsort_In, filter_In in H. rewrite filter_In. destruct H as [_ H]. apply negb_true_iff in H.
+    intros [_ Hb]. congruence.
+  - rewrite fh_zsort_In, filter_In in H. tauto.
+  - rewrite fh_zsort_In, filter_In in H. rewrite filter_In. destruct H as [_ H]. apply negb_true_iff in H.
+    intros [_ Hb]. congruence.
+  - rewrite fh_zsort_In, filter_In. intros [_ Hb]. rewrite H in Hb. discriminate.
+  - rewrite fh_zsort_In, filter_In. intros [_ Hb]. rewrite H in Hb. discriminate.
+  - intros p Hp Ha. rewrite fh_zsort_In, filter_In in Hp. destruct Hp as [_ Hb]. rewrite Ha, H in Hb. discriminate.
+  - intros Hs. apply filter_In. tauto.
+  - intros Hs. apply filter_In. tauto.
+  - intros p Hp Ha. apply filter_In. rewrite Ha. tauto.
+Qed.
+
+(* ====================================================================== *)
+(* 5. Commander.on_instances_invalidation                                   *)
+(* ====================================================================== *)
+Lemma In_zremove_all : forall xs l p, In p (zremove_all xs l) <-> In p l /\ ~ In p xs.
+Proof.
+  intros. unfold zremove_all. rewrite filter_In, negb_true_iff, fh_zmem_false. reflexivity.
+Qed.
+
+(* the commands dropped from the current jobs, and the planned commands that survive, over all application jobs *)
+Definition gone_procs (lost : list Z) (jobs : list appjob) : list Z :=
+  flat_map (fun j => map k_proc (filter (fun k => zmem (k_ident k) lost) (j_current j))) jobs.
+Definition still_planned (lost : list Z) (jobs : list appjob) : list Z :=
+  flat_map (fun j => map k_proc (j_planned (fst (job_invalidation lost j [])))) jobs.
+
+Lemma job_invalidation_fst : forall lost j f1 f2,
+  fst (job_invalidation lost j f1) = fst (job_invalidation lost j f2).
+Proof. intros. reflexivity. Qed.
+
+Lemma commander_invalidation_snd : forall lost j r failed,
+  snd (commander_invalidation lost (j :: r) failed) =
+  snd (commander_invalidation lost r (snd (job_invalidation lost j failed))).
+Proof.
+  intros. cbn [commander_invalidation]. destruct (job_invalidation lost j failed) as [j' f1].
+  cbn [snd]. destruct (commander_invalidation lost r f1); reflexivity.
+Qed.
+
+Lemma commander_invalidation_spec : forall lost jobs failed p,
+  In p (snd (commander_invalidation lost jobs failed)) <->
+  In p failed /\ ~ In p (gone_procs lost jobs) /\ ~ In p (still_planned lost jobs).
+Proof.
+  intros lost jobs. induction jobs as [|j r IH]; intros failed p.
+  - simpl. tauto.
+  - rewrite commander_invalidation_snd, IH. unfold job_invalidation. cbn [snd].
+    rewrite !In_zremove_all. unfold gone_procs, still_planned. cbn [flat_map job_invalidation fst j_planned].
+    rewrite !in_app_iff. tauto.
+Qed.
+
+(* P0 planned_left_alone *)
+Theorem planned_left_alone : forall lost starter_jobs stopper_jobs failed p,
+  In p (lost_filter lost starter_jobs stopper_jobs failed) <->
+  In p failed
+  /\ ~ In p (gone_procs lost starter_jobs) /\ ~ In p (still_planned lost starter_jobs)
+  /\ ~ In p (gone_procs lost stopper_jobs) /\ ~ In p (still_planned lost stopper_jobs).
+Proof.
+  intros. unfold lost_filter. rewrite !commander_invalidation_spec. tauto.
+Qed.
+
+(* the planned jobs survive unless a start command pending on a lost instance erased them *)
+Lemma still_planned_no_erase : forall lost jobs,
+  (forall j k, In j jobs -> In k (j_current j) -> k_erases k = false) ->
+  still_planned lost jobs = flat_map (fun j => map k_proc (j_planned j)) jobs.
+Proof.
+  intros lost jobs H. unfold still_planned. induction jobs as [|j r IH]; [reflexivity|].
+  cbn [flat_map]. rewrite IH by (intros j0 k Hj Hk; apply (H j0 k); [right; exact Hj|exact Hk]). f_equal.
+  assert (E : existsb k_erases (filter (fun k => zmem (k_ident k) lost) (j_current j)) = false).
+  { destruct (existsb k_erases _) eqn:E; [|reflexivity]. apply existsb_exists in E.
+    destruct E as [k [Hk He]]. apply filter_In in Hk. destruct Hk as [Hk _].
+    rewrite (H j k (or_introl eq_refl) Hk) in He. discriminate. }
+  unfold job_invalidation. cbn [fst j_planned]. rewrite E. reflexivity.
+Qed.
